@@ -86,6 +86,27 @@ def showFile : File → String
 
 def memOf (s : Sys) (i : Nat) : String := s!"{showCache (getW s.ws i).mem} n={(getW s.ws i).mem.length}"
 
+/-- FNV-1a (64 bit) of the UTF-8 bytes, as the harness computes it -/
+def fnv (s : String) : Nat :=
+  (s.toUTF8.foldl (fun (h : UInt64) b => (h ^^^ b.toUInt64) * 0x100000001b3) 0xcbf29ce484222325).toNat
+
+def parseDigest (s : String) : Option Nat :=
+  match s.splitOn ":" with
+  | ["h", n] => n.toNat?
+  | _ => none
+
+def insertAll (x : Nat) : List Nat → List (List Nat)
+  | [] => [[x]]
+  | y :: t => (x :: y :: t) :: (insertAll x t).map (y :: ·)
+
+def perms : List Nat → List (List Nat)
+  | [] => [[]]
+  | x :: t => (perms t).flatMap (insertAll x)
+
+def rotations (l : List Nat) : List (List Nat) := (List.range l.length).map (fun k => l.drop k ++ l.take k)
+
+def flushOut (s : Sys) (i : Nat) : String := s!"m={memOf s i} f={showFile s.file}"
+
 def step (s : Sys) (ws : List String) : Sys × String :=
   match ws with
   | ["cfg", p, a, e, n] =>
@@ -112,8 +133,23 @@ def step (s : Sys) (ws : List String) : Sys × String :=
     match i.toNat?, b.toNat?, parseChoice e with
     | some i, some b, some ch =>
       let s' := run s (flushOps i (b != 0) ch)
-      (s', s!"m={memOf s' i} f={showFile s'.file}")
+      (s', flushOut s' i)
     | _, _, _ => (s, "bad-op")
+  | ["flush", i, b, e, h] =>
+    -- `sync_and_flush_to_disk` evicts twice (inside `load_cache_data`, then after the merge); only the second
+    -- eviction is observable. The digest `h:` of the implementation's output selects the tie-break of the
+    -- first one: the model must reproduce the output exactly under SOME legal tie-break.
+    match i.toNat?, b.toNat?, parseChoice e, parseDigest h with
+    | some i, some b, some ch, some d =>
+      let attempt (ch1 : List Nat) : Sys := run s [.flushLoad i ch1, .flushCommit i (b != 0) ch]
+      let s0 := attempt ch
+      if fnv (flushOut s0 i) == d then (s0, flushOut s0 i) else
+      let ks := match s.file with | .data c => keys c | _ => []
+      let cands := if ks.length ≤ 7 then perms ks else rotations ks
+      match cands.find? (fun ch1 => fnv (flushOut (attempt ch1) i) == d) with
+      | some ch1 => let s1 := attempt ch1; (s1, flushOut s1 i)
+      | none => (s0, flushOut s0 i)
+    | _, _, _, _ => (s, "bad-op")
   | ["write", i] =>
     match i.toNat? with
     | some i => let s' := SafeNet.BootCache.step s (.write i); (s', s!"f={showFile s'.file}")
